@@ -29,7 +29,8 @@ REQUIRED_THEOREMS = [
 RULE = ("groups of runs sharing (dt, t_start, t_end, equation, solver, backend) and differing in the tracker "
         "set (the first set is empty: the tracker-free reference run; 0-4 trackers with constant / fixed / "
         "logarithmic / geometric / adversarial oracle schedules, intervals chosen as non-commensurate multiples of "
-        "dt incl. x.5 ties and D < dt, two trackers handed the same interrupt object); equations u'=1, u'=t and the "
+        "dt incl. x.5 ties and D < dt, two trackers handed the same interrupt object); equations u'=1, u'=t, u'=1 with a "
+        "post-step hook that keeps a step counter in post_step_data, and the "
         "state-dependent u'=a*u, u'=a*u+t (|a*dt| <= 1/2) with all five fixed-step solvers on numpy, numba source "
         "and numba JIT; dyadic numbers are compared exactly with the Rat model (states of the state-dependent "
         "equations to 1e-10 and, for interpreted Euler, bit for bit with the Float model), decimal numbers "
@@ -45,7 +46,8 @@ ASSUMPTIONS = [
     "own persistent state; the theorems are for an arbitrary state type and one-step map",
     "the clause `initial state object left unmodified` is judged by the monitor only (the value-semantics model "
     "cannot express a missing copy: theorem initial_state_untouched_partial)",
-    "post-step hooks and user code reading info[...] inside trackers are neither modelled nor generated",
+    "post-step hooks are covered by one hook with persistent data (a step counter added to the state; the data is the "
+    "second component of the model's solver state); trackers that read or write info[...] are neither modelled nor generated",
     "decimal parameters under JIT (fused multiply-add) have no bit-exact model reference: judged by the monitors, "
     "agreement with the Float model reported as a histogram",
 ]
